@@ -44,7 +44,19 @@ def is_copy_construct(n):
     if len(args) != 1:
         return False
     a = args[0]
-    return a.t is not None and n.t is not None and _decay(a.t) == _decay(n.t)
+    if a.t is not None and n.t is not None and _decay(a.t) == _decay(n.t):
+        return True
+    cal = n.callee or {}
+    ps = split_sig(cal.get('sig', '()'))
+    if len(ps) == 1 and cal.get('name'):
+        pt = ps[0]
+        if pt.endswith('&&') or (pt.startswith('const ') and pt.endswith('&')):
+            base = _decay(pt.rstrip('&').strip())
+            base = base.split('<')[0]
+            cls = (cal.get('cls') or '').split('<')[0]
+            if base == cls or base.split('::')[-1] == cal.get('name'):
+                return True
+    return False
 
 
 def unwrap(n):
@@ -245,6 +257,16 @@ class Sem(object):
                     if not cal.get('sig', '').endswith(' const') and cal.get('kind') != 'conv':
                         add(n.c[0], n)
                 ptypes = split_sig(cal.get('sig', '()'))
+                if cal.get('q') in ('std::make_shared', 'std::allocate_shared'):
+                    # perfect forwarding: the effective parameter types are the constructor's
+                    tg = [t for t in self.prog.resolve_call(n) if t.kind == 'ctor']
+                    if len(tg) >= 1:
+                        sigs = [split_sig(t.sig) for t in tg]
+                        ptypes = sigs[0] if all(x == sigs[0] for x in sigs) else \
+                            [('const X &' if all(len(x) > i and (x[i].startswith('const ') or not x[i].endswith('&')) for x in sigs) else 'X &')
+                             for i in range(max(len(x) for x in sigs))]
+                if cal.get('q') in ('std::move', 'std::forward'):
+                    ptypes = []
                 for i, arg in enumerate(real_args(n)):
                     if arg is None:
                         continue
